@@ -1,6 +1,7 @@
 package harness
 
 import (
+	"errors"
 	"bufio"
 	"bytes"
 	"fmt"
@@ -31,6 +32,10 @@ type c11Scenario struct {
 }
 
 var c11Bytes = []byte("c11-original-secret-bytes-0123456789")
+
+const c11Panic = "c11-callback-panic"
+
+var errC11Callback = errors.New("c11-callback-error")
 
 func (sc c11Scenario) body(c *explore.Ctx) {
 	vsched.BeginQuiet()
@@ -95,6 +100,18 @@ func (sc c11Scenario) body(c *explore.Ctx) {
 						_, e := sec.WithBytesFunc(func(b []byte) ([]byte, error) { return nil, callback(o, nil)(b) })
 						return e
 					}))
+				case "panicker":
+					// a reader whose callback panics (the caller recovers above the SDK): the secret must be released all the same
+					o.startedAfterClose = closeReturned > 0
+					o.err = sec.WithBytes(callback(o, func() error { panic(c11Panic) }))
+				case "panicker-func":
+					o.startedAfterClose = closeReturned > 0
+					_, o.err = sec.WithBytesFunc(func(b []byte) ([]byte, error) {
+						return nil, callback(o, func() error { panic(c11Panic) })(b)
+					})
+				case "err-reader":
+					o.startedAfterClose = closeReturned > 0
+					o.err = sec.WithBytes(callback(o, func() error { return errC11Callback }))
 				case "closer":
 					o.err = sec.Close()
 					if inCallback > 0 {
@@ -116,8 +133,24 @@ func (sc c11Scenario) body(c *explore.Ctx) {
 		switch {
 		case !o.done:
 			fail("blocked", "thread %d (%s) never finished; blocked: %v", ti, o.kind, vsched.Blocked())
+		case strings.HasPrefix(o.kind, "panicker"):
+			// the callback's own panic must come out unchanged (or the access was refused because the secret is closed)
+			if o.pan != "" && !strings.Contains(o.pan, c11Panic) {
+				fail("panic", "thread %d (%s) panicked with something else than the callback's panic: %s", ti, o.kind, o.pan)
+			}
+			if o.pan == "" && o.ranCallback {
+				fail("callback-panic-swallowed", "the callback of thread %d panicked but %s returned normally (%v)", ti, o.kind, o.err)
+			}
 		case o.pan != "":
 			fail("panic", "thread %d (%s) panicked: %s", ti, o.kind, o.pan)
+		}
+		if o.kind == "err-reader" {
+			if o.ranCallback && o.err != errC11Callback && (o.err == nil || !strings.Contains(o.err.Error(), errC11Callback.Error())) {
+				fail("callback-error-lost", "the callback returned an error but WithBytes returned %v", o.err)
+			}
+			if !o.ranCallback && o.err == nil {
+				fail("callback-skipped", "WithBytes returned nil without running the callback")
+			}
 		}
 		if o.kind == "closer" {
 			closers++
@@ -181,6 +214,9 @@ func c11Scenarios(thorough bool) []c11Scenario {
 			c11Scenario{impl + "/2r", impl, []string{"reader", "nested"}},
 			c11Scenario{impl + "/2r-1c", impl, []string{"reader", "reader", "closer"}},
 			c11Scenario{impl + "/1r-2c", impl, []string{"reader", "closer", "closer"}},
+			c11Scenario{impl + "/panicker-1c", impl, []string{"panicker", "closer"}},
+			c11Scenario{impl + "/panickerfunc-1r", impl, []string{"panicker-func", "reader"}},
+			c11Scenario{impl + "/errreader-1r-1c", impl, []string{"err-reader", "reader", "closer"}},
 		)
 		if thorough {
 			out = append(out,
@@ -246,6 +282,7 @@ type c11aWorld struct {
 	orig   []byte
 	addr   uintptr
 	closed bool
+	stuck  bool // a reader left the pages accessible: Close would block
 	fails  []kViol
 }
 
@@ -366,11 +403,55 @@ func (w *c11aWorld) apply(op string) {
 			} else if err != nil {
 				w.failf("access-failed", "%s on an open secret: %v", op, err)
 			}
+		case "with-panic", "withfunc-panic", "with-err", "withfunc-err":
+			// a callback that panics (recovered by the caller) or returns an error: the pages go back to no-access
+			var err error
+			var cbPan string
+			inner := func(b []byte) error {
+				w.insideCB(1, nil)(b)
+				if strings.HasSuffix(op, "-panic") {
+					panic(c11Panic)
+				}
+				return errC11Callback
+			}
+			cbPan = safe(func() {
+				if strings.HasPrefix(op, "withfunc") {
+					_, err = w.sec.WithBytesFunc(func(b []byte) ([]byte, error) { return nil, inner(b) })
+				} else {
+					err = w.sec.WithBytes(inner)
+				}
+			})
+			switch {
+			case w.closed:
+				if cbPan != "" || err == nil {
+					w.failf("access-after-close", "%s after Close: panic=%q err=%v", op, cbPan, err)
+				}
+			case strings.HasSuffix(op, "-panic"):
+				if !strings.Contains(cbPan, c11Panic) {
+					w.failf("callback-panic-swallowed", "%s: the callback's panic did not come out (panic=%q err=%v)", op, cbPan, err)
+				}
+			default:
+				if cbPan != "" {
+					w.failf("panic:"+op, "%s panicked: %s", op, cbPan)
+				} else if err == nil || !strings.Contains(err.Error(), errC11Callback.Error()) {
+					w.failf("callback-error-lost", "%s: the callback's error was not returned: %v", op, err)
+				}
+			}
+			if !w.closed && w.addr != 0 {
+				if e := smapsLookup(w.addr); e.found && e.perms != "---p" {
+					// the secret is stuck in the in-use state: Close would wait for ever, do not call it
+					w.stuck = true
+				}
+			}
 		case "isclosed":
 			if got := w.sec.IsClosed(); got != w.closed {
 				w.failf("isclosed", "IsClosed() = %v, want %v", got, w.closed)
 			}
 		case "close":
+			if w.stuck {
+				w.failf("close-would-block", "Close not attempted: the pages were left accessible by an earlier reader whose callback panicked / failed, the reader count never returns to zero")
+				return
+			}
 			if err := w.sec.Close(); err != nil {
 				w.failf("close-error", "Close: %v", err)
 			}
@@ -392,14 +473,14 @@ func c11aRun(impl string, size, depth int, r *Report) {
 	frontier := [][]string{{}}
 	sigSeen := map[string]bool{}
 	ntrans := 0
-	ops := []string{"new", "rand", "with", "withfunc", "nested", "reader", "isclosed", "close"}
+	ops := []string{"new", "rand", "with", "withfunc", "nested", "reader", "with-panic", "withfunc-panic", "with-err", "withfunc-err", "isclosed", "close"}
 	run := func(h []string) (*c11aWorld, st) {
 		w := &c11aWorld{impl: impl, size: size}
 		for _, op := range h {
 			w.apply(op)
 		}
 		s := st{w.sec != nil, w.closed, w.addr != 0}
-		if w.sec != nil && !w.closed {
+		if w.sec != nil && !w.closed && !w.stuck {
 			w.sec.Close()
 		}
 		return w, s
@@ -447,7 +528,7 @@ func c11aRun(impl string, size, depth int, r *Report) {
 
 // CheckC11 runs part (b) under the scheduler and part (a) on real pages.
 func CheckC11(r *Report) {
-	r.Rule = "(b) every interleaving up to the preemption bound of R readers (one nested), C closers and an IsClosed poller on one secret of each implementation over a shadow page table, with a scheduling point inside every reader callback; (a) every sequence of New/CreateRandom/WithBytes/WithBytesFunc/nested/NewReader.Read/IsClosed/Close up to the depth bound on real mmap/mlock/mprotect pages for sizes {1,32,4096,4097,12288}, with /proc/self/smaps looked up inside callbacks and after every step; non-trivial = executions with a cross-thread conflict (b) / transitions (a)"
+	r.Rule = "(b) every interleaving up to the preemption bound of R readers (one nested), C closers, readers whose callback panics or returns an error, and an IsClosed poller on one secret of each implementation over a shadow page table, with a scheduling point inside every reader callback; (a) every sequence of New/CreateRandom/WithBytes/WithBytesFunc/nested/NewReader.Read/callbacks that panic or fail/IsClosed/Close up to the depth bound on real mmap/mlock/mprotect pages for sizes {1,32,4096,4097,12288}, with /proc/self/smaps looked up inside callbacks and after every step; non-trivial = executions with a cross-thread conflict (b) / transitions (a)"
 	bounds := []int{0, 1, 2}
 	if r.Thorough() {
 		bounds = []int{0, 1, 2, 3}
